@@ -37,6 +37,9 @@ def answer (s : Store) (ws : List String) : Store × String :=
     -- list specification (C03: "the reported term is that of the last remaining entry")
     (s, if s.ents.isEmpty then s!"last {(last s).1} *" else s!"last {(last s).1} {(last s).2}")
   | ["compact", i, t] => (compact s (n i) (n t), "ok")
+  -- term and vote as the node's RaftStorage keeps and reports them (C05): whatever the log holds - nothing, in particular
+  | ["hs", t, v] => ({ s with hs := (n t, n v) }, "ok")
+  | ["init"] => (s, s!"init last={(last s).1}:* applied=* hs={s.hs.1}:{s.hs.2}")
   | ["files"] => (s, "files *")
   | ["cat"] => (s, "cat *")
   | _ => (s, "bad-op")
@@ -143,6 +146,16 @@ def specStep (st : SpecSt) (ws : List String) : SpecSt × String :=
       | _ => (st3, "spec FAIL no catalogue")
     | "open" :: _ => (st3, if ans == ["ok"] then (mv.getD "spec ok") else "spec FAIL the store does not open")
     | ["reopen"] => (st3, if ans == ["ok"] then (mv.getD "spec ok") else "spec FAIL the store does not reopen")
+    | ["init"] =>
+      -- C05: the node reports the term and vote it saved last, whatever its log holds (and the end of that log)
+      let want := s!"hs={st2.s.hs.1}:{st2.s.hs.2}"
+      let lastWant := s!"last={(last st2.s).1}:"
+      match ans.find? (·.startsWith "hs="), ans.find? (·.startsWith "last=") with
+      | some h, some l =>
+        if h != want then (st3, s!"spec FAIL get_initial_state reports {h} (term:vote), the hard state saved last is {want}")
+        else if !l.startsWith lastWant then (st3, s!"spec FAIL get_initial_state reports {l}, the log ends at {(last st2.s).1}")
+        else (st3, "spec ok")
+      | _, _ => (st3, "spec FAIL get_initial_state fails")
     | _ =>
       if " ".intercalate ans == r.2 || (r.2.endsWith " *" && ans.take 2 == (r.2.splitOn " ").take 2) then (st3, mv.getD "spec ok")
       else (st3, s!"spec FAIL answer differs from the log of acknowledged entries: want [{r.2}]")
